@@ -191,6 +191,7 @@ PROPS['C04'] = {
 TY = 'types::__verif_types::'
 CODEC_TRUSTED = [
     'dependency contracts (unit codec prelude): std::io::Read / Take / Write for IN-MEMORY readers and writers (Cursor over a byte slice and Take of one, the only instantiations in the crate): a reader is the byte sequence still to be read, read_exact / byteorder reads consume a prefix and fail iff it is too short; a writer appends and fails iff no room is left',
+    'Cursor<&mut [u8]> (encoder side): content and position as observers; byteorder writes and Seek::seek(SeekFrom::Start(p)) through wrappers with the cursor-exact contract (a write replaces the bytes at the position, a seek moves the position only)',
     'T1: byteorder calls (r.read_u8(), read_u16::<NetworkEndian>(), write_u8 ...) are written as calls of wrapper fns whose bodies are exactly those calls (byteorder::ByteOrder is sealed, Verus cannot attach a specification); readers / writers taken by value (`mut r: R` with callers passing `&mut r`) are taken as `&mut R` (std forwards Read/Write for &mut R)',
     'std::net: SocketAddr is the transparent enum; SocketAddrV4/V6 are opaque records observed through ip/port accessors with constructor axioms (IPv6 flow info and scope id are not transmitted, the decoder sets them to 0)',
     'R6: SmallVec lists (AddrList, PeerList, RangeList, key bytes) are modelled by Vec (push / pop / with_capacity / iteration only); ring UnparsedPublicKey is an opaque byte container',
@@ -200,7 +201,7 @@ CODEC_DRV = {'file': 'native/codec_model.rs', 'attach': 'src/messages.rs', 'test
 PROPS['C16'] = {
     'level': 'proof',
     'native_search': {r'codec::(NodeInfo|Range|Address|theorem_(peer|claims)).*': CODEC_DRV, r'codec::InitMsg.*': INIT_DRV},
-    'level_text': 'Proof (Verus, real code, unbounded lengths, termination included): NodeInfo::{decode, decode_internal, decode_peer_list_part, decode_claims_part, read_addr_list, read_addr_list_inner}, Range::read_from, Address::{read_from, read_from_fixed} and RotationMessage::read_from against a format specification written from the wire format (value or error for EVERY byte sequence; unknown parts are skipped; only the length of the three fixed-size known parts is left unspecified when it disagrees with their content); the encoders NodeInfo::{encode_peer_list_part, encode_addrs_part}, Range/Address::write_to, RotationMessage::write_to against byte-exact output specifications; round-trip THEOREMS decode-spec(encode-spec(x)) == normalise(x) for peer lists (at most seven addresses per family, IPv6 first), claim lists and rotation messages. Proof (Kani, full domain): Range/Address codec. InitMsg::read_from (handshake) is proved total and signature-gated, its field values and InitMsg::write_to are NOT decided; NOT decided either: the TLV framing on the encoder side (NodeInfo::encode_part / encode_internal: closures over Cursor<&mut [u8]> with seek).',
+    'level_text': 'Proof (Verus, real code, unbounded lengths, termination included): NodeInfo::{decode, decode_internal, decode_peer_list_part, decode_claims_part, read_addr_list, read_addr_list_inner}, Range::read_from, Address::{read_from, read_from_fixed} and RotationMessage::read_from against a format specification written from the wire format (value or error for EVERY byte sequence; unknown parts are skipped; only the length of the three fixed-size known parts is left unspecified when it disagrees with their content); the encoders NodeInfo::{encode_peer_list_part, encode_addrs_part}, Range/Address::write_to, RotationMessage::write_to against byte-exact output specifications; round-trip THEOREMS decode-spec(encode-spec(x)) == normalise(x) for peer lists (at most seven addresses per family, IPv6 first), claim lists and rotation messages. Proof (Kani, full domain): Range/Address codec. the encoder-side framing NodeInfo::encode_part (tag, length patched by seek-back, body of an FnOnce part writer - higher-order contract) and the parts block of NodeInfo::encode_internal (five closures): written bytes == enc_node(self); and the NodeInfo-level THEOREM decode-spec(enc_node(n)) == normalise(n). InitMsg::read_from (handshake) is proved total and signature-gated; its field values and InitMsg::write_to are NOT decided, nor are the three statements of encode_internal around the block (Cursor::new over MsgBuffer::buffer, set_length).',
     'verus': [{'unit': 'codec', 'rlimit': 60}],
     'kani': {
         'files': {'src/types.rs': ['kani/types.rs']},
@@ -213,8 +214,7 @@ PROPS['C16'] = {
     'trusted': CODEC_TRUSTED + ['std::io::Cursor / byteorder as compiled by Kani (real code, not stubbed) in the Kani harnesses'],
     'not_decided': [
         'InitMsg::write_to and the field-level decoding specification of InitMsg::read_from (read_from is proved total and to accept only correctly signed messages, its field values are not specified)',
-        'NodeInfo::encode_part / encode_internal / encode: the tag-length framing on the encoder side (FnOnce closures over Cursor<&mut [u8]> with seek-back to patch the length); exercised by every node-level test, but not under contract',
-        'composition of the part-level round trips into one NodeInfo-level theorem (needs the framing contract)',
+        'NodeInfo::encode_internal outside its parts block: `Cursor::new(buffer.buffer())` before and `buffer.set_length(len)` after it (that the bytes written through the cursor are the message bytes of the buffer: a &mut borrow held by an opaque std type), and NodeInfo::encode = encode_internal(..).expect(..)',
         'over-long known fixed-size parts (peer timeout, node id, own addresses with a length other than their content): the format defines nothing, the contract leaves the result open (the decoder continues inside the part)',
     ],
 }
